@@ -107,6 +107,10 @@ def _function_value(ctx, nf, x, rule):
     body = dict(back[2]).get("body") if back[0] == "ctor" else None
     enc_body = [("call", "._to_serial", (("attr", sym("self"), "body"),), ()), ("enc", ("attr", sym("self"), "body"))]
     ok = body is not None and body[0] == "call" and body[1].endswith("_from_serial") and any(contains(body, e) for e in enc_body)
+    # the nested document is handed to the model whole (nodes, edges, metadata, ...): SerialHugr(**hugr)
+    from ..nf import find_calls
+    sh = find_calls(body, "SerialHugr") if body is not None else []
+    ok = ok and len(sh) == 1 and not sh[0][2] and [k for k, _ in sh[0][3]] == ["**"]
     ctx.check(bool(ok), rule, x.qualname, k.module.path, m.lineno,
               "a function value must round-trip its body through the HUGR codec (body._to_serial() / Hugr._from_serial)", m,
               found=s[:300], detail="body -> Hugr codec (decided by the Hugr-level rules R2-R7)")
@@ -219,7 +223,7 @@ class IndexSpace:
                 env[g.target.id] = OTHER
 
 
-def r3_one_index_space(ctx, rule="C02.R3", rule5="C02.R5") -> None:
+def r3_one_index_space(ctx, rule="C02.R3", rule5="C02.R5", with_metadata: bool = True) -> None:
     prog = ctx.program
     hugr = prog.cls(f"{BASE}.Hugr")
     nd = prog.cls(f"{BASE}.NodeData")
@@ -342,6 +346,8 @@ def r3_one_index_space(ctx, rule="C02.R3", rule5="C02.R5") -> None:
         ctx.broken("Hugr._to_serial: edges= is not a comprehension over a local link helper")
 
     # --- metadata list is aligned with the node list
+    if not with_metadata:
+        return
     if meta_arg is not None:
         msrc, mfilter = elem_source(meta_arg)
         ctx.check(msrc == nsrc and not mfilter, rule, "Hugr._to_serial: metadata aligned with nodes", file, meta_arg.lineno,
@@ -533,8 +539,13 @@ def run(ctx) -> None:
     r2_single_use_iterators(ctx)
     r3_one_index_space(ctx)
     r4_r5_r7_load(ctx)
+    from .c03 import r5_order_offset
+    r5_order_offset(ctx, rule="C02.R5")     # the decoder's inverse shares this helper: its table must be right for reloads to keep their links
     r6_entry_points(ctx, nf)
     ctx.stats["nf call sites resolved/unresolved"] = [nf.resolved_calls, nf.unresolved_calls]
+    from .. import lints
+    lints.arm(ctx)
+
 
 
 # ---------------------------------------------------------------------------------------
